@@ -99,14 +99,18 @@ EnOpen(s, a) ==
   /\ \/ a.fault = "none"
      \/ a.fault = "open" /\ a.kind = "path" /\ a.outcome = "ok" /\ ~s.faulted
 
+(* A caller-supplied PIL image that was left over from a failed construction  *)
+(* is the caller's: it is disposed of (by the caller) before the next attempt. *)
 ApOpen(s, a) ==
+  LET s0 == [s EXCEPT !.callerOpen = FALSE] IN
   IF a.fault # "none" THEN
-    R(s, a, [s EXCEPT !.faulted = TRUE], "fault", NoFrame, FALSE, 0, FALSE, 0)
-  ELSE IF a.outcome = "404" THEN Rejected(s, a, "URLNotFoundError")
-  ELSE IF a.outcome = "notImage" THEN Rejected(s, a, "UnidentifiedImageError")
+    R(s, a, [s0 EXCEPT !.faulted = TRUE], "fault", NoFrame, FALSE, 0, FALSE, 0)
+  ELSE IF a.outcome = "404" THEN R(s, a, s0, "URLNotFoundError", NoFrame, FALSE, 0, FALSE, 0)
+  ELSE IF a.outcome = "notImage" THEN
+    R(s, a, s0, "UnidentifiedImageError", NoFrame, FALSE, 0, FALSE, 0)
   ELSE IF a.outcome = "ctorFails" THEN
     \* a caller-supplied PIL image stays open (and the caller keeps it)
-    R(s, a, [s EXCEPT !.callerOpen = (a.kind = "pil")], "ValueError", NoFrame, FALSE, 0,
+    R(s, a, [s0 EXCEPT !.callerOpen = (a.kind = "pil")], "ValueError", NoFrame, FALSE, 0,
       FALSE, 0)
   ELSE
     R(s, a,
